@@ -343,6 +343,34 @@ theorem inv_signBlock {cfg : Cfg} {s : State} (h : Inv cfg s) (slot : Nat) (hok 
       have := hd b hb
       omega
 
+theorem stepSignAttFault_state (cfg : Cfg) (s : State) (x y : Nat) :
+    (stepSignAttFault cfg s x y).1 = s ∧ (stepSignAttFault cfg s x y).2 ≠ .signed := by
+  unfold stepSignAttFault
+  rcases stepSignAtt_cases cfg s x y with ⟨_, h2⟩ | ⟨_, _, _, _, _, _, _, _, heq⟩
+  · split
+    · simp
+    · rename_i o hne heq'
+      refine ⟨rfl, ?_⟩
+      intro ho
+      apply h2
+      rw [heq']
+      exact ho
+  · rw [heq]; simp
+
+theorem stepSignBlockFault_state (cfg : Cfg) (s : State) (slot : Nat) :
+    (stepSignBlockFault cfg s slot).1 = s ∧ (stepSignBlockFault cfg s slot).2 ≠ .signed := by
+  unfold stepSignBlockFault
+  rcases stepSignBlock_cases cfg s slot with ⟨_, h2⟩ | ⟨_, _, _, _, _, heq⟩
+  · split
+    · simp
+    · rename_i o hne heq'
+      refine ⟨rfl, ?_⟩
+      intro ho
+      apply h2
+      rw [heq']
+      exact ho
+  · rw [heq]; simp
+
 theorem inv_step {cfg : Cfg} {s : State} (h : Inv cfg s) (op : Op)
     (hok : SignedOk cfg s op) (hf : Fresh cfg s op) : Inv cfg (step cfg s op).1 := by
   cases op with
@@ -356,6 +384,8 @@ theorem inv_step {cfg : Cfg} {s : State} (h : Inv cfg s) (op : Op)
   | bumpWrite => exact inv_bumpWrite h hf
   | signAtt x y => exact inv_signAtt h x y hok
   | signBlock slot => exact inv_signBlock h slot hok
+  | signAttFault x y => simp only [step]; rw [(stepSignAttFault_state cfg s x y).1]; exact h
+  | signBlockFault slot => simp only [step]; rw [(stepSignBlockFault_state cfg s slot).1]; exact h
   | tick dt => exact inv_tick h dt
   | restart => exact inv_pend h none (by simp [PendOk])
 
@@ -401,6 +431,8 @@ theorem pend_none_step {cfg : Cfg} {s : State} (hp : s.pend = none) (op : Op) (h
     rcases stepSignBlock_cases cfg s slot with ⟨h1, _⟩ | ⟨_, _, _, _, _, heq⟩
     · simp only [step]; rw [h1]; exact hp
     · simp only [step]; rw [heq]; exact hp
+  | signAttFault x y => simp only [step]; rw [(stepSignAttFault_state cfg s x y).1]; exact hp
+  | signBlockFault slot => simp only [step]; rw [(stepSignBlockFault_state cfg s slot).1]; exact hp
   | tick dt => exact hp
   | restart => rfl
 
